@@ -78,6 +78,17 @@ class CacheEngine(Engine):
     def size(self, scn):
         return len(scn['ops'])
 
+    def canon_obs(self, scn, obs):
+        # byte sizes of pickles are not a function of the value (pandas pickles of equal frames differ in length):
+        # the observation keeps only whether a damaged file was left intact
+        out = []
+        for o in obs:
+            if isinstance(o, dict) and 'kept' in o:
+                o = dict(o)
+                o['kept'] = bool(o['kept'][0] == o['kept'][1])
+            out.append(o)
+        return out
+
     def sample(self, scn, obs):
         return {'ctype': scn.get('ctype'), 'ops': scn['ops'][:12], 'obs': obs[:12]}
 
